@@ -48,6 +48,8 @@ def _event_key(e):
         return (fn, tuple(e["vals"]), e["m"])
     if fn == "nl":
         return (fn, json.dumps([e["edges"], e["absent"], e["drop"]]))
+    if fn == "nltags":
+        return (fn, json.dumps([e["path"], e["edges"], e["absent"]]))
     return (fn, json.dumps(e, sort_keys=True))
 
 
@@ -65,12 +67,16 @@ def _nontrivial(e):
         return len(set(e["vals"])) > e["m"]      # something has to be merged
     if fn == "nl":
         return bool(e["loops"]) or any(len(c) >= 2 for c in e["chains"])
+    if fn == "nltags":
+        return len(e["tags"]) < len(e["edges"])      # some link was removed
     return False
 
 
 def _describe(e):
     fn = e["fn"]
-    if fn in ("print", "rt", "rtfile"):
+    if fn == "print":
+        return f"fix_word {e['v']} (0x{e['v'] & 0xFFFFFFFF:08x}) printed {bytes(e.get('s', [])).decode(errors='replace')!r}"
+    if fn in ("rt", "rtfile"):
         s = bytes(e.get("s", [])).decode(errors="replace")
         return f"fix_word {e['v']} (0x{e['v'] & 0xFFFFFFFF:08x}) printed {s!r} read back {e.get('back')}"
     if fn == "parse":
@@ -82,6 +88,8 @@ def _describe(e):
         return f"compress({len(e['vals'])} values, max {e['m']}) -> {len(e.get('res', [])) - 1} classes"
     if fn == "nl":
         return f"next-larger program of {len(e['edges'])} links"
+    if fn == "nltags":
+        return f"list tags after the {e['path']} pipeline on links {e['edges']} (missing characters {e['absent']}): {e.get('tags')}"
     return fn
 
 
@@ -122,7 +130,7 @@ def _validate_calls(ctx, path, parts, xmx="3g"):
         futs = [ex.submit(tlc_validate_one, "Trace_TfmArith", "Trace_TfmArith.cfg", c[0],
                           ctx.work / f"tv-{stem}-{i}", None, 3600, xmx) for i, c in enumerate(chunks)]
         vs = [f.result() for f in futs]
-    bad = []
+    bad, info = [], {}
     for (cpath, lo), v in zip(chunks, vs):
         if not v.accepted:
             raise ToolError(f"call-event validation stopped early in {cpath} at line {v.matched + 1}: {v.out[-2000:]}")
@@ -130,12 +138,14 @@ def _validate_calls(ctx, path, parts, xmx="3g"):
             lines = Path(cpath).read_text().splitlines()
             for verdict in v.verdicts:
                 bad.append((json.loads(lines[verdict["l"] - 1]), verdict))
-    return n, bad
+        for i in printed(v.out, "INFO"):
+            info[i["key"]] = info.get(i["key"], 0) + 1
+    return n, bad, info
 
 
 def _validate(ctx, path, parts, keep):
     """(thread) validate a file of call events with TLC; count distinct non-trivial inputs."""
-    n, bad = _validate_calls(ctx, path, parts)
+    n, bad, info = _validate_calls(ctx, path, parts)
     keys, kept, maxvals = set(), [], 0
     with open(path) as f:
         for line in f:
@@ -146,14 +156,16 @@ def _validate(ctx, path, parts, keep):
                 maxvals = max(maxvals, len(e["vals"]))
             if len(kept) < 50 and keep(e):
                 kept.append(e)
-    return n, bad, len(keys), kept, maxvals
+    return n, bad, len(keys), kept, maxvals, info
 
 
 def _account(ctx, part, res):
-    n, bad, nkeys, kept, maxvals = res
+    n, bad, nkeys, kept, maxvals, info = res
     ctx.add_bound(part, n, nkeys)
     if maxvals:
         ctx.cov["parts"][part]["max_values"] = maxvals
+    for k, c in info.items():
+        ctx.cov["parts"][part]["info_" + k.replace("-", "_")] = c
     _judge_all(ctx, part, bad)
     return kept, bad
 
@@ -166,6 +178,23 @@ def _parts(path, per):
     return max(1, min(8, count_lines(path) // per + 1))
 
 
+def _gen(ctx, args, out, timeout=900):
+    """Run an event generator of the harness.  Exit code 3 = the watchdog saw a call of the code
+    under test that did not return: the in-flight call is reported (a hang is data, like a panic)."""
+    p = vh(args + [f"out={out}", f"hang_s={15 if ctx.quick else 60}"], check=False, timeout=timeout)
+    if p.returncode == 3:
+        hang = Path(str(out) + ".hang")
+        e = json.loads(hang.read_text()) if hang.exists() else {"fn": "?"}
+        e["panic"] = "call did not return (watchdog)"
+        ctx.violation(f"the code under test did not return from: {json.dumps(e)[:400]}",
+                      {"part": args[0], "event": e, "verdict": {"key": "hang"}})
+        if not Path(out).exists() or count_lines(out) == 0:
+            Path(out).write_text(json.dumps(e) + "\n")
+    elif p.returncode != 0:
+        log(p.stderr.decode(errors="replace")[-3000:])
+        raise ToolError(f"harness failed rc={p.returncode}: vh {' '.join(map(str, args))}")
+
+
 def _sweep_start(ctx, q, table, bad_table):
     """Runs as soon as TLC has accepted the print table (own process; Rust threads)."""
     if bad_table:
@@ -173,8 +202,8 @@ def _sweep_start(ctx, q, table, bad_table):
         return None
     so = ctx.work / "sweep.ndjson"
     ex = cf.ThreadPoolExecutor(max_workers=1)
-    fut = ex.submit(vh, ["c17-sweep", f"table={table}", f"threads={6 if q else 12}", f"budget_s={30 if q else 450}",
-                         f"out={so}"], timeout=1200)
+    fut = ex.submit(vh, ["c17-sweep", f"table={table}", f"threads={6 if q else 12}", f"budget_s={25 if q else 450}",
+                         f"units={4096 if q else 1 << 20}", f"out={so}"], timeout=1200)
     return ex, fut, so
 
 
@@ -195,18 +224,30 @@ def _sweep_finish(ctx, q, sweep):
                 "patterns_checked_against_tlc_table_and_read_back": r["patterns_checked"],
                 "fractions_in_table": r["table_fractions"], "fractions_swept": r["units_done"],
                 "integer_parts_per_fraction": r["integer_parts"], "wall_s": round(r["wall_s"], 1),
-                "complete": r["units_done"] == r["table_fractions"],
+                "fractions_requested": r["units_requested"],
+                "complete": r["units_done"] == r["units_requested"],
             }
             if not q and r["units_done"] == r["table_fractions"] == 1 << 20:
                 ctx.cov["exhaustive"] = True
                 ctx.cov["parts"]["Fix.sweep"]["all_2_32_bit_patterns"] = True
-            elif r["units_done"] < r["table_fractions"]:
+            elif r["units_done"] < r["units_requested"]:
                 ctx.assumptions.append(
                     f"sweep stopped by its time budget after {r['units_done']} of {r['table_fractions']} fractions "
                     f"(x 4096 integer parts; fractions visited in the order of f*0x9E3779B1 mod 2^20)")
 
 
 def run(ctx):
+    try:
+        _run(ctx)
+    except ToolError:
+        raise
+    except Exception as ex:  # a bug of the driver must never look like a verdict (exit 1)
+        import traceback
+        log(traceback.format_exc())
+        raise ToolError(f"internal error of the C17 driver: {ex!r}")
+
+
+def _run(ctx):
     q = ctx.quick
     build_harness()
     seed = ctx.seed
@@ -249,13 +290,13 @@ def run(ctx):
     w = ctx.work
     table, fixp, sc, cp, nlp = (w / f"{n}.ndjson" for n in ("table", "fix", "scaled", "compress", "nl"))
     stride = 64 if q else 1
-    vh(["c17-table", f"stride={stride}", f"offset={seed % stride}", f"out={table}"])
-    vh(["c17-fix", f"seed={seed}", f"n={3000 if q else 40000}", f"nparse={4000 if q else 60000}",
-        f"nfile={6 if q else 60}", f"out={fixp}"])
-    vh(["c17-scaled", f"seed={seed}", f"n={20000 if q else 600000}", f"out={sc}"])
-    vh(["c17-compress", f"seed={seed}", f"n={1200 if q else 30000}", "maxlen=300", f"small={8 if q else 10}", f"out={cp}"])
-    vh(["c17-nl", f"seed={seed}", f"k={5 if q else 6}", f"ka={4 if q else 5}", f"n={60 if q else 1200}", f"out={nlp}"])
-    cap = 8 if q else 12
+    _gen(ctx, ["c17-table", f"stride={stride}", f"offset={seed % stride}"], table)
+    _gen(ctx, ["c17-fix", f"seed={seed}", f"n={3000 if q else 40000}", f"nparse={4000 if q else 60000}",
+               f"nfile={6 if q else 60}"], fixp)
+    _gen(ctx, ["c17-scaled", f"seed={seed}", f"n={20000 if q else 600000}"], sc)
+    _gen(ctx, ["c17-compress", f"seed={seed}", f"n={1200 if q else 30000}", "maxlen=300", f"small={8 if q else 10}"], cp)
+    _gen(ctx, ["c17-nl", f"seed={seed}", f"k={5 if q else 6}", f"ka={4 if q else 5}", f"n={60 if q else 1200}"], nlp)
+    cap = 4 if q else 12
     binds = [
         ("Fix.table", pool.submit(_validate, ctx, table, min(cap, _parts(table, 6000)),
                                   lambda e: "panic" not in e and len(e["s"]) >= 9)),
@@ -266,7 +307,7 @@ def run(ctx):
         ("Fix.calls", pool.submit(_validate, ctx, fixp, min(cap, _parts(fixp, 6000)),
                                   lambda e: e["fn"] == "parse" and len(e["s"]) > 9 and "panic" not in e)),
         ("NextLarger.calls", pool.submit(_validate, ctx, nlp, min(cap, _parts(nlp, 2500)),
-                                         lambda e: "panic" not in e and e["loops"] and 3 <= len(e["edges"]) <= 6)),
+                                         lambda e: "panic" not in e and e.get("loops") and 3 <= len(e["edges"]) <= 6)),
     ]
     models += [
         pool.submit(tlc_model, ctx, "Fix.integer_parts", "MC_TfmArith_Fix", "MC_TfmArith_FixInt.cfg",
@@ -314,7 +355,8 @@ def run(ctx):
     ctx.assumptions += [
         "the bit pattern 0x80000000 prints as -2048.0, which get_fix (PLtoTF 62) rejects; it is the one pattern for which "
         "the round trip is not demanded (the code must, and does, behave like get_fix on it)",
-        "quick tier: the print table and the sweep cover 2^14 seeded-stride fractions x all 4096 integer parts; "
+        "quick tier: the print table covers 2^14 seeded-stride fractions (both signs) and all 4096 integer parts, the sweep "
+        "4096 of those fractions x all 4096 integer parts; "
         "thorough: all 2^20 fractions (all 2^32 patterns unless the time budget stops the sweep, which is then stated)",
         "to_scaled: values with first byte 0 or 255 (|v| < 16) and design sizes 16*2^-20 <= ds < 2048 (TeX 568/571 reject the rest)",
         "compress: |value| <= 2^28 so that differences fit 32 bits (Knuth's own arithmetic overflows beyond); limits 1..255; "
